@@ -331,8 +331,27 @@ func vh_token_aware_e2e() {
 			down = -1
 		}
 	}
+	// the node comes back: the session announces it with AddHost (startPoolFill on a node-up event)
+	// and / or HostUp (handleNodeConnected), in either order
+	if down >= 0 && vBool("down_host_returns") {
+		hosts[down].setState(NodeUp)
+		switch vChoose("announced_by", 3) {
+		case 0:
+			tp.AddHost(hosts[down])
+		case 1:
+			tp.HostUp(hosts[down])
+		default:
+			tp.AddHost(hosts[down])
+			tp.HostUp(hosts[down])
+		}
+	}
 	key := vBytesN("key", 1)
 	q := &Query{routingKey: key, getKeyspace: func() string { return "ks" }}
+	noKey := vBool("no_routing_key")
+	if noKey {
+		// a Session.Bind query whose values are not known yet has no routing key: fallback order only
+		q = &Query{getKeyspace: func() string { return "ks" }, binding: func(*QueryInfo) ([]interface{}, error) { return nil, nil }}
+	}
 	var seq []*HostInfo
 	next := tp.Pick(q)
 	for i := 0; i < 4; i++ {
@@ -372,6 +391,9 @@ func vh_token_aware_e2e() {
 		if h.state == NodeUp {
 			want = append(want, h)
 		}
+	}
+	if noKey {
+		want = nil
 	}
 	ok := len(seq) >= len(want)
 	for i := 0; ok && i < len(want); i++ {
